@@ -3,11 +3,26 @@
 (it gets only the property text and the worktree, nothing from /verif)."""
 import sys, json, subprocess, os
 pid = sys.argv[1]
+rnd = int(sys.argv[2]) if len(sys.argv) > 2 else 1
+base = 3 * (rnd - 1)
 p = [json.loads(l) for l in open('/verif/properties.jsonl') if json.loads(l)['id'] == pid][0]
 os.makedirs('/tmp/m', exist_ok=True)
 wt = '/tmp/m/%s' % pid
 if not os.path.exists(wt):
     subprocess.run(['git', '-C', '/repo', 'worktree', 'add', '-q', '-B', 'mut-' + pid, wt, 'main'], check=True)
+known = ''
+if rnd > 1:
+    import glob
+    items = []
+    for d in sorted(glob.glob('/verif/seeded/%s-*' % pid)):
+        try:
+            txt = open(d + '/note.md').read()
+        except OSError:
+            continue
+        items.append('- ' + ' '.join(txt.split())[:420])
+    known = ('\nChanges of this kind have ALREADY been produced by others - do not repeat them or close variants; pick other code sites, other '
+             'clauses of the property, other mechanisms (state kept between calls, dtype/shape conventions, rarely taken branches, option '
+             'combinations, boundary values, error paths, interaction of two functions):\n' + '\n'.join(items) + '\n')
 mech = '\n'.join('- %s (%s)' % (m['name'], m['where']) for m in p['anchors'].get('mechanism', []))
 task = f"""You are helping to evaluate a verification tool by writing realistic BUGS. You get one semantic property of the Python
 library weaverba137/pydl (Python ports of IDL astronomy routines) and a private git worktree of the library at {wt}
@@ -21,7 +36,7 @@ Quantified: {p['quantifier']['text']}
 Relevant code:
 {mech}
 Files: {', '.join(p['anchors']['files'])}
-
+{known}
 Task: produce THREE different, independent changes to the library source (each a small realistic patch such as a developer
 could plausibly commit: a refactor gone slightly wrong, an off-by-one, a wrong boundary or comparison in one path only, an
 "optimisation", a mishandled option or calling convention, two sites that each look fine alone) such that for EACH change:
@@ -37,7 +52,7 @@ For each change write a demonstration: a small standalone Python program `demo.p
 and exits 1 (printing what went wrong) with the change applied, when run as `PYTHONPATH=<tree> /venv/bin/python demo.py`
 (the demo may create temporary files with `tempfile`; it must not need the network).
 
-Deliver under /tmp/m/{pid}-out/1, /tmp/m/{pid}-out/2, /tmp/m/{pid}-out/3 each: `patch.diff` (output of `git diff` in the
+Deliver under /tmp/m/{pid}-out/{base+1}, /tmp/m/{pid}-out/{base+2}, /tmp/m/{pid}-out/{base+3} each: `patch.diff` (output of `git diff` in the
 worktree, applicable with `git apply` to a clean checkout), `demo.py`, and `note.md` (what the change is, why the tests do
 not notice, what is needed for it to manifest). Work on one change at a time and restore the worktree
 (`git -C {wt} checkout -- .`) before starting the next and at the end. Verify for each patch yourself: clean tree -> demo
